@@ -154,6 +154,23 @@ pub fn catalogue(thorough: bool) -> Value {
             "options": {"dedup_ms": 300, "df_filter": null, "aircraft_filter": null, "via": "cli", "rest": true}, "events": events}));
     }
 
+    // a receiver that stamps its frames with its own (GNSS) clock, and that clock disagrees with the arrival times: the
+    // two reports below arrive 10.6 s apart (too far to pair; the aircraft has flown 3.3 km) while the receiver's stamps
+    // put them 0.5 s apart. The stamps are receiver data; what is decoded must follow the record's own time.
+    {
+        let at = |t: f64| (44.0, 2.0 + 600.0 / 3600.0 * t / 60.0 / 44.0f64.to_radians().cos());
+        let mk = |k: usize, dt: f64, t_true: f64, gnss: f64, odd: bool| {
+            let (la, lo) = at(t_true);
+            let (yz, xz, _) = encode(la, lo, odd, false);
+            let me = me_bds05(11, 0, 0, ac12_q(30000 + 25 * k as i32), 0, odd as u8, yz, xz);
+            let mut e = ev(0, dt, &df17(5, 0x4b1a21, &me, 0), "airborne", "Q", Some((la, lo)), json!({"odd": odd}));
+            e["gnss"] = json!(gnss);
+            e
+        };
+        let events = vec![mk(0, 0.0, 0.0, 0.0, false), mk(1, 10.6, 10.6, 0.5, true), mk(2, 0.4, 11.0, 0.9, false), mk(3, 0.4, 11.4, 1.3, true)];
+        scenarios.push(json!({"name": "gnss-clock:Q", "group": "positions-slow", "sensors": sensors, "options": plain, "events": events}));
+    }
+
     // moving aircraft with explicit time stamps (decode1090 only: its input carries the stamps): a wrong pairing of two
     // reports of a standing aircraft gives the right answer, of a moving one it does not
     {
